@@ -674,6 +674,36 @@ def _is_last_action(fn, aw):
     return last_in(fn.body, aw)
 
 
+def run_retry_worlds(ctx, r, seeds_per_case):
+    """retry-validating server: further datagrams addressed to the Retry source CID arrive before the client
+    switches to the server's own CID (see harness.impl_adapter.RetryWorld)"""
+    from harness import impl_adapter as A
+    cases, impl_out = [], []
+    n = 0
+    for sc in A.RETRY_SCENARIOS:
+        for _ in range(seeds_per_case):
+            seed = r.randrange(1 << 30)
+            w = A.RetryWorld(seed, sc).run()
+            n += 1
+            lines, outs = w.trace()
+            cases.append(lines)
+            impl_out += outs
+            extra = sum(1 for s in w.tr.steps if s["op"] == "sdgram" and s["result"].startswith("route")
+                        and " I " in s["line"])
+            ctx.count(("retry-world", sc, seed), extra > 0)
+            for what, sig in w.problems:
+                ctx.witness(what, {"retry_world": {"seed": seed, "scenario": sc}, "trace_tail": lines[-12:]}, sig)
+    flat = [l for c in cases for l in c]
+    model_out = lean.run_driver(flat) if flat else []
+    mism = core.diff_streams(ctx, "adapter-retry", cases, impl_out, model_out)
+    for m in mism[:3]:
+        if m[0] >= 0:
+            ci, oi, il, ml = m
+            ctx.disagreement("adapter-retry", cases[ci][max(0, oi - 12): oi + 1], ml, il, oi)
+    ctx.cov["traces_validated_against_impl"] += len(cases)
+    return n
+
+
 def main(tier):
     ctx = core.Ctx("C19", tier)
     tree.activate()
@@ -720,6 +750,17 @@ def main(tier):
     # (b) real mode
     t1 = time.time()
     ctx.notes["quiet_worlds"] = run_quiet(ctx, r, 1 if not thorough else 8)
+    ctx.notes["retry_worlds"] = run_retry_worlds(ctx, r, 2 if not thorough else 20)
+
+    def search():
+        # failing-input search used when an obligation / correspondence broke without a witness: more of the
+        # scenario families whose oracles are written from the property text
+        rs = rng.make("c19-search")
+        run_retry_worlds(ctx, rs, 10)
+        run_quiet(ctx, rs, 3)
+        run_worlds(ctx, rs, 150)
+
+    ctx.search = search
     notes, _ = run_worlds(ctx, r, 120 if not thorough else 4000)
     ctx.notes.update(notes)
     ctx.notes["real_s"] = round(time.time() - t1, 1)
@@ -738,6 +779,10 @@ def main(tier):
         "token from the neighbours of its address (port +-256, high byte only, +1, other host, v6-mapped). Quiescence "
         "worlds: lossless network, idle timeout 60 s, writer ops (write / write_eof / close) of client-initiated, "
         "server-initiated and echoed streams separated by 2 s of virtual quiet, 9 op orders, peer reader checked after each. "
+        "Retry worlds: retry=True, one client, lossless net with scenario policy: client datagrams duplicated, server "
+        "first flight dropped (client PTO re-sends its Initial to the Retry source CID), ClientHello split over two "
+        "datagrams, combinations; oracle after every step: every ID the server handed to a client (Retry SCID, advertised "
+        "host CIDs) and not retired routes to its protocol object, no datagram to such an ID creates a second state. "
         "encode_address vs model over all 65536 ports and byte-boundary grids of 7 hosts. Non-trivial = a waiter completed "
         "(stub) / connection terminated with >2 waiters (real); distinct by op-sequence or seed hash."
     )
@@ -763,6 +808,14 @@ def replay(path):
             print(l, "\n    ", o[:160])
         print("PROBLEM " + p if p else "no problem on this tree")
         return 1 if p else 0
+    if "retry_world" in rp:
+        q = rp["retry_world"]
+        w = A.RetryWorld(q["seed"], q["scenario"]).run()
+        for what, sig in w.problems:
+            print("PROBLEM", sig, what)
+        if not w.problems:
+            print("no problem on this tree")
+        return 1 if w.problems else 0
     if "quiet" in rp:                    # writer operations separated by quiescence
         q = rp["quiet"]
         w = A.QuietWorld(q["seed"], q["owner"], q["sequence"]).run()
